@@ -34,11 +34,12 @@ Section WithTable.
     let wrap := model_wrap tbl k stream in
     let script := mk_script stream (q_script q) in
     let tr := run wrap (N.to_nat 8192%N) (q_D q) (N.to_nat (k_tracked k)) (map tid_of (k_ts k)) script in
+    let found := is_some (k_found k) in
     chk tbl k &&
     (N.of_nat (read_by tr (q_D q - 1)) =? q_total_read q)%N &&
     Bool.eqb (existsb is_sleep tr) (q_slept q) &&
-    negb (existsb is_relay tr) &&
-    Bool.eqb (ends_with_timeout (q_D q) tr) (negb (q_slept q)) &&
+    Bool.eqb (existsb is_relay tr) found &&
+    Bool.eqb (ends_with_timeout (q_D q) tr) (negb (q_slept q) && negb found) &&
     (* the theorem's hypothesis, decided on this probe, implies what was observed: whenever the
        handler was seen to react, the stream must present a valid tag (only evaluated then) *)
     (if q_quiet q && negb (q_slept q) then true
